@@ -3,21 +3,21 @@ import AwsVerif.Proofs.C06.Inv
 namespace AwsVerif.Proofs.C06
 open AwsVerif.Heap
 
-@[simp] theorem setCap_items (q : PQ) (c) : (setCap q c).items = q.items := rfl
-@[simp] theorem setCap_bp (q : PQ) (c) : (setCap q c).bp = q.bp := rfl
-@[simp] theorem setCap_handles (q : PQ) (c) : (setCap q c).handles = q.handles := rfl
-@[simp] theorem setCap_cap (q : PQ) (c) : (setCap q c).cap = c := rfl
-@[simp] theorem setCap_setCap (q : PQ) (c d) : setCap (setCap q c) d = setCap q d := rfl
+@[simp] theorem setCap_items (q : PQ) (cp) : (setCap q cp).items = q.items := rfl
+@[simp] theorem setCap_bp (q : PQ) (cp) : (setCap q cp).bp = q.bp := rfl
+@[simp] theorem setCap_handles (q : PQ) (cp) : (setCap q cp).handles = q.handles := rfl
+@[simp] theorem setCap_cap (q : PQ) (cp) : (setCap q cp).cap = cp := rfl
+@[simp] theorem setCap_setCap (q : PQ) (cp d) : setCap (setCap q cp) d = setCap q d := rfl
 
-theorem sSwap_setCap (q : PQ) (c) (a b : Nat) : sSwap (setCap q c) a b = setCap (sSwap q a b) c := by
+theorem sSwap_setCap (q : PQ) (cp) (a b : Nat) : sSwap (setCap q cp) a b = setCap (sSwap q a b) cp := by
   unfold sSwap
   cases hq : q.bp <;> simp [hq, setCap]
 
-@[simp] theorem keyAt_setCap (q : PQ) (c) (i : Nat) : keyAt (setCap q c) i = keyAt q i := rfl
+@[simp] theorem keyAt_setCap (q : PQ) (cp) (i : Nat) : keyAt (setCap q cp) i = keyAt q i := rfl
 
-@[simp] theorem pickFirst_setCap (q : PQ) (c) (r : Nat) : pickFirst (setCap q c) r = pickFirst q r := rfl
+@[simp] theorem pickFirst_setCap (c : Cmp) (q : PQ) (cp) (r : Nat) : pickFirst c (setCap q cp) r = pickFirst c q r := rfl
 
-theorem siftDown_setCap (c) : ∀ fuel (q : PQ) r, siftDown fuel (setCap q c) r = setCap (siftDown fuel q r) c := by
+theorem siftDown_setCap (c : Cmp) (cp) : ∀ fuel (q : PQ) r, siftDown c fuel (setCap q cp) r = setCap (siftDown c fuel q r) cp := by
   intro fuel
   induction fuel with
   | zero => intro q r; rfl
@@ -28,8 +28,8 @@ theorem siftDown_setCap (c) : ∀ fuel (q : PQ) r, siftDown fuel (setCap q c) r 
     repeat' split
     all_goals rfl
 
-theorem siftUp_setCap (c) : ∀ fuel (q : PQ) k,
-    siftUp fuel (setCap q c) k = (setCap (siftUp fuel q k).1 c, (siftUp fuel q k).2) := by
+theorem siftUp_setCap (c : Cmp) (cp) : ∀ fuel (q : PQ) k,
+    siftUp c fuel (setCap q cp) k = (setCap (siftUp c fuel q k).1 cp, (siftUp c fuel q k).2) := by
   intro fuel
   induction fuel with
   | zero => intro q k; rfl
@@ -40,19 +40,19 @@ theorem siftUp_setCap (c) : ∀ fuel (q : PQ) k,
     repeat' split
     all_goals rfl
 
-theorem siftEither_setCap (c) (q : PQ) (k : Nat) : siftEither (setCap q c) k = setCap (siftEither q k) c := by
+theorem siftEither_setCap (c : Cmp) (cp) (q : PQ) (k : Nat) : siftEither c (setCap q cp) k = setCap (siftEither c q k) cp := by
   unfold siftEither
   simp only [setCap_items, siftUp_setCap, siftDown_setCap]
   split
   · rfl
   · split <;> rfl
 
-theorem dropLast_setCap (c) (q : PQ) (k : Nat) : dropLast (setCap q c) k = setCap (dropLast q k) c := by
+theorem dropLast_setCap (cp) (q : PQ) (k : Nat) : dropLast (setCap q cp) k = setCap (dropLast q k) cp := by
   unfold dropLast
   cases hq : q.bp <;> simp [hq, setCap]
 
-theorem removeNode_setCap (c) (q : PQ) (i : Nat) :
-    removeNode (setCap q c) i = (setCap (removeNode q i).1 c, (removeNode q i).2) := by
+theorem removeNode_setCap (c : Cmp) (cp) (q : PQ) (i : Nat) :
+    removeNode c (setCap q cp) i = (setCap (removeNode c q i).1 cp, (removeNode c q i).2) := by
   unfold removeNode
   simp only [setCap_items]
   cases q.items[i]? with
@@ -61,8 +61,8 @@ theorem removeNode_setCap (c) (q : PQ) (i : Nat) :
     simp only [sSwap_setCap]
     split <;> simp [dropLast_setCap, siftEither_setCap]
 
-theorem remove_setCap (c) (q : PQ) (h : Nat) :
-    remove (setCap q c) h = (setCap (remove q h).1 c, (remove q h).2) := by
+theorem remove_setCap (c : Cmp) (cp) (q : PQ) (h : Nat) :
+    remove c (setCap q cp) h = (setCap (remove c q h).1 cp, (remove c q h).2) := by
   unfold remove
   simp only [setCap_handles, setCap_items, setCap_bp, removeNode_setCap]
   cases q.handles h with
@@ -72,23 +72,23 @@ theorem remove_setCap (c) (q : PQ) (h : Nat) :
     repeat' split
     all_goals rfl
 
-theorem pop_setCap (c) (q : PQ) : pop (setCap q c) = (setCap (pop q).1 c, (pop q).2) := by
+theorem pop_setCap (c : Cmp) (cp) (q : PQ) : pop c (setCap q cp) = (setCap (pop c q).1 cp, (pop c q).2) := by
   unfold pop
   simp only [setCap_items, removeNode_setCap]
   split <;> rfl
 
-theorem top_setCap (c) (q : PQ) : top (setCap q c) = top q := rfl
+theorem top_setCap (cp) (q : PQ) : top (setCap q cp) = top q := rfl
 
-theorem clear_setCap (c) (q : PQ) : clear (setCap q c) = setCap (clear q) c := rfl
+theorem clear_setCap (cp) (q : PQ) : clear (setCap q cp) = setCap (clear q) cp := rfl
 
-theorem pushCore_setCap (c) (q : PQ) (e : Elem) (h : Option Nat) :
-    pushCore (setCap q c) e h = setCap (pushCore q e h) c := rfl
+theorem pushCore_setCap (cp) (q : PQ) (e : Elem) (h : Option Nat) :
+    pushCore (setCap q cp) e h = setCap (pushCore q e h) cp := rfl
 
 /-- a push without handle on a static queue that is not full is the dynamic push -/
-theorem pushRef_static_eq_dynamic {q : PQ} {c : Nat} (e : Elem) (hlt : q.items.size < c) :
-    pushRef (setCap q (some c)) e none =
-      (setCap (pushRef (setCap q none) e none).1 (some c), (pushRef (setCap q none) e none).2) := by
-  have h1 : isFull (setCap q (some c)) = false := by
+theorem pushRef_static_eq_dynamic (c : Cmp) {q : PQ} {cp : Nat} (e : Elem) (hlt : q.items.size < cp) :
+    pushRef c (setCap q (some cp)) e none =
+      (setCap (pushRef c (setCap q none) e none).1 (some cp), (pushRef c (setCap q none) e none).2) := by
+  have h1 : isFull (setCap q (some cp)) = false := by
     simp only [isFull, setCap_cap, setCap_items]
     exact decide_eq_false (by omega)
   have h2 : isFull (setCap q none) = false := by simp [isFull]
@@ -96,8 +96,8 @@ theorem pushRef_static_eq_dynamic {q : PQ} {c : Nat} (e : Elem) (hlt : q.items.s
   simp only [h1, h2, Bool.false_eq_true, if_false, Option.isSome_none, false_and, pushCore_setCap, setCap_items,
     siftUp_setCap, setCap_setCap]
 
-theorem pushRef_static_full {q : PQ} {c : Nat} (e : Elem) (h : Option Nat) (hq : q.cap = some c) (hge : c ≤ q.items.size) :
-    pushRef q e h = (q, some .exceedsMax) := by
+theorem pushRef_static_full (c : Cmp) {q : PQ} {cp : Nat} (e : Elem) (h : Option Nat) (hq : q.cap = some cp) (hge : cp ≤ q.items.size) :
+    pushRef c q e h = (q, some .exceedsMax) := by
   have h1 : isFull q = true := by
     simp only [isFull, hq]
     exact decide_eq_true hge
